@@ -10,7 +10,7 @@ CONSTANTS
   MaxFaults = 1
   StoreMetaFirst = FALSE
   KillWaits = TRUE
-  GcProtectsMergeSources = TRUE
+  GcProtectsMergeSources = FALSE
   ReplaceStaleDel = TRUE
-INVARIANT CrashNoOrphan
+INVARIANT MergeSourcesReadable
 CHECK_DEADLOCK FALSE
